@@ -9,5 +9,8 @@ from vqlint.paths import *
 from vqlint.rules.common import *
 from importlib.machinery import SourceFileLoader
 _chk = SourceFileLoader('vqcheck', os.path.join(HERE, 'check')).load_module()
-F = Facts(os.path.join(HERE, '.work/facts/%s-%s.json' % (os.environ.get('CFG', 'def'), _chk.repo_hash())))
+_p = os.path.join(HERE, '.work/facts/%s-%s.json' % (os.environ.get('CFG', 'def'), _chk.repo_hash()))
+if not os.path.exists(_p):
+    _p = max(glob.glob(os.path.join(HERE, '.work/facts/%s-*.json' % os.environ.get('CFG', 'def'))), key=os.path.getmtime)
+F = Facts(_p)
 exec(sys.argv[1])
